@@ -24,7 +24,7 @@ RULE = ("Hypothesis-generated RDM stacks (1-6 RDMs x 2-8 conditions; every entry
         "encoding its RDM and pair; optional NaN entries in the source) carrying hidden ids _rid / "
         "_cid and a second non-unique descriptor; grouping per dimension by the default index, by "
         "an overridden integer 'index' with repeats (object that is itself a resample) or by a "
-        "named descriptor (int / str labels, unique or repeated, list or ndarray, appearance order "
+        "named descriptor (int / str labels, bool labels in sample_bool, unique or repeated, list or ndarray, appearance order "
         "!= sorted order); all three samplers; the outcomes of numpy.random.randint are generated "
         "integer lists injected for the duration of the call. Oracle: identity tracing through the "
         "library's own descriptors (multiset of drawn groups' members, every descriptor value, "
@@ -53,7 +53,7 @@ ASSUMPTIONS = [
     "<= 4e-7 per quick run (12 cases), <= 7e-6 per thorough run (200 cases). The generator seed is "
     "part of the case and the runner's Hypothesis seed is fixed by VERIF_SEED, so for a given "
     "VERIF_SEED the verdict is deterministic and a replay reproduces it bit for bit (no flaking)",
-    "group labels are ints or strs of one type per descriptor (np.unique must be able to sort them)",
+    "group labels are ints, strs or bools of one type per descriptor (np.unique must be able to sort them)",
 ]
 
 
@@ -442,6 +442,37 @@ def classify_after_fit(case):
     return ['sampler:' + case['sampler'], 'n_rdm=%d' % case['n_rdm']], True
 
 
+# ---- sub-check: boolean group labels (patient / control, left / right) -------------------------
+
+def _boolify(g, flip):
+    """the same grouping with its labels replaced by True / False (<= 2 groups; members of one
+    group stay together, appearance order generated through `flip`)"""
+    distinct = S.distinct_sorted(g['values'])
+    rank = {v: i for i, v in enumerate(distinct)}
+    return dict(by='grp', kind='bool', container=g['container'],
+                values=[bool((rank[v] + flip) % 2) for v in g['values']], as_none=False)
+
+
+@st.composite
+def bool_case(draw):
+    sampler = draw(st.sampled_from(['rdm', 'rdm', 'both', 'both', 'pattern']))
+    spec = dict(draw(S.stack(n_rdm=(2, 6))))
+    draws = draw(st.lists(st.integers(0, 63), min_size=4, max_size=4))
+    which = {'rdm': ['rdm'], 'pattern': ['pat'],
+             'both': draw(st.sampled_from([['rdm'], ['rdm', 'pat'], ['pat']]))}[sampler]
+    for dim in which:
+        spec[dim] = _boolify(spec[dim], draw(st.integers(0, 1)))
+    # 'both' draws one outcome per group of either dimension: pad for the dimension left as generated
+    draws = draws + draw(st.lists(st.integers(0, 63), min_size=spec['n_rdm'] + spec['n_cond'],
+                                  max_size=spec['n_rdm'] + spec['n_cond']))
+    return dict(sampler=sampler, stack=spec, draws=draws, fallback_seed=draw(st.integers(0, 999)))
+
+
+def classify_bool(case):
+    labels, nt = classify_injected(case)
+    return labels, nt
+
+
 SUBCHECKS = [
     SubCheck('sample_both', injected_case('both'), check_injected, classify_injected, quick=600,
              doc='bootstrap_sample with injected draws: members, descriptors, entries, NaN placement, '
@@ -463,4 +494,7 @@ SUBCHECKS = [
     SubCheck('draw_after_fit', after_fit_case(), check_after_fit, classify_after_fit, quick=6, thorough=40,
              doc='bootstrap draw right after fitting a weighted model with its default fitter, from four '
                  'different seeds: the draws are not all identical'),
+    SubCheck('sample_bool', bool_case(), check_injected, classify_bool, quick=150, thorough=600,
+             doc='the three samplers with boolean group labels (python bools in a list or a bool '
+                 'ndarray) in the RDM and/or condition dimension, injected draws; same oracle'),
 ]
